@@ -42,7 +42,7 @@ MANIFEST = {
 
 
 def plan(tier):
-    t = 300 if tier == "quick" else 2400
+    t = 300 if tier == "quick" else 900
     return [
         K("conformance", "harness.c07", "conformance_job", "shim builders vs real mypy", timeout=900),
         CH("annotated", "harness.c07", "annotated", [f"0:{s}" for s in range(6)], timeout=t, desc="results vs annotation",
